@@ -1016,7 +1016,15 @@ def run(chk):
         lo = len(tpl) - 10          # without `.` and nine digits
         cons = []
         for bb, t in b.switches():
-            c = mir.norm_cmp(b.switch_origin(bb), lambda o: o[0] == "unop" and o[1] == "PtrMetadata" or (o[0] == "call" and o[1].callee.get("name") == "len") or "PtrMetadata" in o_str(o))
+            is_len = lambda o: o[0] == "unop" and o[1] == "PtrMetadata" or (o[0] == "call" and o[1].callee.get("name") == "len") or "PtrMetadata" in o_str(o)
+            so_, pos_ = mir.norm_bool(b.switch_origin(bb))
+            if so_[0] == "call" and so_[1].callee.get("name") == "contains" and len(so_[1].args) == 2 and not b.in_cycle(bb):
+                rng = panics.range_consts(b, so_[1])
+                if rng and is_len(b.origin(so_[1].args[1], through_calls=("deref",))):
+                    for v, n in [(str(v), n) for v, n in t["targets"]] + [("otherwise", t["otherwise"])]:
+                        cons.append((bb, "In", rng, (v != "0") == pos_, n))
+                continue
+            c = mir.norm_cmp(b.switch_origin(bb), is_len)
             if c is None:
                 continue
             op, l, r = c
@@ -1031,7 +1039,7 @@ def run(chk):
         # evaluate: a length L is rejected if some test's taken edge for L reaches only Err returns without further length tests
         def rejected(L):
             for bb, op, k, truth, n in cons:
-                holds = {"Lt": L < k, "Le": L <= k, "Gt": L > k, "Ge": L >= k, "Eq": L == k, "Ne": L != k}[op]
+                holds = (k[0] <= L <= k[1]) if op == "In" else {"Lt": L < k, "Le": L <= k, "Gt": L > k, "Ge": L >= k, "Eq": L == k, "Ne": L != k}[op]
                 if holds == truth:
                     rs = []
                     for rb in b.return_blocks():
